@@ -1,0 +1,36 @@
+/*
+Verification hooks (compiled only with -DLIBCELLML_VERIF). They add observation points for the
+model-based conformance checks kept outside this repository; with the guard off nothing here exists.
+*/
+#pragma once
+
+#ifdef LIBCELLML_VERIF
+
+#    include <cstddef>
+
+#    include "libcellml/exportdefinitions.h"
+#    include "libcellml/issue.h"
+#    include "libcellml/types.h"
+
+namespace libcellml {
+namespace verif {
+
+/**
+ * Called after every change of a logger's issue list, while the change is complete:
+ * op is "new", "add", "removeError" or "removeAll"; level is 0 (error), 1 (warning), 2 (message)
+ * or -1; index is the argument of removeError (or 0); the four sizes are those of the issue
+ * vector and of the three per-level index vectors after the operation.
+ */
+using LoggerHook = void (*)(const void *logger, const char *op, int level, size_t index,
+                            size_t issues, size_t errors, size_t warnings, size_t messages);
+
+LIBCELLML_EXPORT void setLoggerHook(LoggerHook hook);
+LIBCELLML_EXPORT LoggerHook loggerHook();
+
+/** Create an issue carrying the given reference rule and level (the constructor is private). */
+LIBCELLML_EXPORT IssuePtr createIssue(Issue::ReferenceRule rule, Issue::Level level);
+
+} // namespace verif
+} // namespace libcellml
+
+#endif
